@@ -313,11 +313,24 @@ impl Property for C09 {
             cfg.inkey = false;
             return crate::props::c13::interrupt_case(rng, cfg, "C09", 300);
         }
-        let prog = gen_program(rng, cfg);
+        let mut prog = gen_program(rng, cfg);
+        // the highest legal line number carries DATA of its own: RESTORE 65529 typed at the prompt must
+        // find it (and not whatever the direct statement's own code is filed under)
+        let last_line_data = rng.pct(8) && prog.lines.last().map(|l| l.num < 65529).unwrap_or(false);
+        if last_line_data {
+            prog.lines.push(Line {
+                num: 65529,
+                stmts: vec![Stmt::Data(vec![Expr::Int(77), Expr::Str("LAST".into())])],
+            });
+        }
         let mut case = base_case(rng, prog, "C09");
         case.session.push(Step::Direct(vec![Stmt::Run(None)]));
         let steps = 1 + rng.below(7) as usize;
         let mut pending: Vec<Step> = vec![];
+        if last_line_data {
+            pending.push(Step::Direct(vec![Stmt::Read(vec![LVal::scalar("A")]), Stmt::Print { q: false, items: vec![PItem::E(Expr::var("A"))] }]));
+            pending.push(Step::Direct(vec![Stmt::Restore(Some(Target::L(case.prog.lines.len() - 1)))]));
+        }
         let mut keeps_position = false;
         grow(rng, &mut case, steps, |rng, case, last, _i| {
             let cur = current_program(case);
